@@ -47,14 +47,17 @@ where
     T: Hash + Eq + Clone + Ord + Display + Send + Sync,
     A: Clone + Send + Sync,
 {
-    let nbrs = graph.get_successors_or_neighbors(v.clone());
-    let (clustering_v, potential) = nbrs
+    // self-loops never count: `v` is not its own neighbor
+    let nbrs = graph
+        .get_successors_or_neighbors(v.clone())
         .into_iter()
+        .filter(|n| n.name != v);
+    let (clustering_v, potential) = nbrs
         .combinations(2)
         .map(|c| {
             get_coefficient_for_combination(v.clone(), c[0].name.clone(), c[1].name.clone(), graph)
         })
-        .fold((0, 0), |acc: (usize, usize), v: (usize, usize)| {
+        .fold((0, 0), |acc: (i64, i64), v: (i64, i64)| {
             (acc.0 + v.0, acc.1 + v.1)
         });
     match potential > 0 {
@@ -63,7 +66,7 @@ where
     }
 }
 
-fn get_coefficient_for_combination<T, A>(v: T, u: T, w: T, graph: &Graph<T, A>) -> (usize, usize)
+fn get_coefficient_for_combination<T, A>(v: T, u: T, w: T, graph: &Graph<T, A>) -> (i64, i64)
 where
     T: Hash + Eq + Clone + Ord + Display + Send + Sync,
     A: Clone + Send + Sync,
@@ -74,12 +77,13 @@ where
         .intersection(&w_nbrs)
         .collect::<HashSet<&T>>()
         .without(&&v)
-        .len();
+        .len() as i64;
     let degm = match u_nbrs.contains(&w) {
         false => squares + 1,
         true => squares + 2,
     };
-    let potential = (u_nbrs.len() - degm) + (w_nbrs.len() - degm) + squares;
+    // signed arithmetic: on a directed graph `v` need not be a successor of `u` or `w`
+    let potential = (u_nbrs.len() as i64 - degm) + (w_nbrs.len() as i64 - degm) + squares;
     (squares, potential)
 }
 
@@ -90,9 +94,11 @@ where
     T: Hash + Eq + Clone + Ord + Display + Send + Sync,
     A: Clone + Send + Sync,
 {
+    // self-loops never count: `nn` is not its own neighbor
     graph
-        .get_successors_or_neighbors(nn)
+        .get_successors_or_neighbors(nn.clone())
         .into_iter()
         .map(|n| n.name.clone())
+        .filter(|n| *n != nn)
         .collect::<HashSet<T>>()
 }
